@@ -655,6 +655,11 @@ impl Property for C12 {
             "exp2_flush_subnormal",
         ]
     }
+    fn stall_is_violation(&self) -> Option<(&'static str, u64)> {
+        // C12 states termination. The step clock covers the Newton loop; anything else that fails to
+        // return (a run normally takes well under a second) is caught by this wall-clock backstop.
+        Some(("L1-terminates", 180))
+    }
     fn exhaustive_note(&self, _tier: Tier) -> Option<String> {
         Some("grid: every x = 2^i 5^j (i <= 60, j <= 30; random sign and power-of-ten scale) x precisions {L-1, L, L+1, L+2} around the exact length L of 1/x x all 7 modes is enumerated; per execution the admissible exp2 set is enumerated".into())
     }
